@@ -93,7 +93,8 @@ type c04State struct {
 	simple  *unlocker.Simple   // non-nil: one unlocker object re-keyed for every signature of the run
 	getter  *unlocker.Getter   // non-nil: one library getter re-keyed per locking script (wallet style)
 	// withScripts: verifications pass WithScripts next to WithTx
-	withScripts bool
+	withScripts         bool
+	usedSpecialOutpoint bool
 	// optOrder: how the verifier spells its flags (0 named options only; 1 a signature-policy WithFlags after them;
 	// 2 the same before them; 3 everything in one WithFlags). Options combine, so all four mean the same.
 	optOrder int
@@ -109,6 +110,20 @@ func (s *c04State) newUTXO(owner int) *c04UTXO {
 	u := &c04UTXO{owner: owner, vout: uint32(c.Choose(4)), value: uint64(1000 + c.Choose(100000))}
 	copy(u.txid[:], c.Bytes(32))
 	u.txid[0] = byte(s.nUTXO) // distinct outpoints
+	if !s.usedSpecialOutpoint && c.Bool(1, 10) {
+		// an outpoint with nothing random about it (at most one per history, so outpoints stay distinct): the
+		// null outpoint, or all-FF with index 0 — to the signing path these are outpoints like any other
+		s.usedSpecialOutpoint = true
+		if c.Bool(1, 2) {
+			u.txid, u.vout = [32]byte{}, 0xffffffff
+		} else {
+			for j := range u.txid {
+				u.txid[j] = 0xff
+			}
+			u.vout = 0
+		}
+		c.Count("probe.special_outpoint_utxo", 1)
+	}
 	u.script = p2pkh(s.parties[owner].h160)
 	if c.Bool(1, 6) {
 		// P2PKH-inscription locking script
